@@ -81,6 +81,39 @@ Proof.
   - split; [reflexivity|]. split; [reflexivity|discriminate].
 Qed.
 
+Lemma repeating_restart_listed_spec c s r s1 cd :
+  repeating_restart_listed c s r = (s1, cd) ->
+  shut s1 = shut s /\
+  (cd <> Initiated -> s1 = s) /\
+  (cd = Initiated -> r = ResourceExhausted /\ restarts s = 0 /\ s1 = bump s /\ mem r (hook_on c) = true).
+Proof.
+  unfold repeating_restart_listed. intros H. destruct (mem r (hook_on c)) eqn:Em.
+  - apply repeating_restart_spec in H as [A [B C]]. split; [exact A|]. split; [exact B|].
+    intros Hi. destruct (C Hi) as [X [Y Z]]. auto.
+  - inversion H; subst. split; [reflexivity|]. split; [reflexivity|discriminate].
+Qed.
+
+(* ComponentState.restart *)
+Lemma comp_restart_spec c s r h ok s' cd' :
+  comp_restart c s r h ok = (s', cd') ->
+  shut s' = shut s /\
+  (cd' <> Initiated -> resub s' = resub s /\ restarts s <= restarts s' <= restarts s + 1) /\
+  (cd' = Initiated -> shut s = false /\
+     (is_rep c = false -> (eff_max c = -1 \/ restarts s + 1 <= eff_max c) /\
+         (r = SubmissionFailed -> s' = bump_resub s) /\
+         (r <> SubmissionFailed -> s' = bump s /\ mem r (hook_on c) = true)) /\
+     (is_rep c = true -> r = ResourceExhausted /\ restarts s = 0 /\ s' = bump s /\ mem r (hook_on c) = true)).
+Proof.
+  intros Hc. unfold comp_restart in Hc. destruct (shut s) eqn:Hs.
+  - inversion Hc; subst. split; [assumption|]. split; [intros; lia|discriminate].
+  - destruct (is_rep c) eqn:Hr.
+    + apply repeating_restart_listed_spec in Hc as [A [B C]]. split; [congruence|]. split.
+      * intros Hn. rewrite (B Hn). lia.
+      * intros Hi. split; [reflexivity|]. split; [discriminate|]. intros _. exact (C Hi).
+    + apply engine_restart_spec in Hc as [A [B C]]. split; [congruence|]. split; [exact B|].
+      intros Hi. split; [reflexivity|]. split; [intros _; exact (C Hi)|discriminate].
+Qed.
+
 (* ---- the whole decision: one lemma describing every way an exit can be answered *)
 Lemma ctl_restart_spec c s r h stable ok s1 cd :
   ctl_restart c s r h stable ok = (s1, cd) ->
@@ -92,31 +125,33 @@ Lemma ctl_restart_spec c s r h stable ok s1 cd :
      (r <> SubmissionFailed -> s1 = bump s) /\
      (is_rep c = false -> (eff_max c = -1 \/ restarts s + 1 <= eff_max c) /\
                           (r = SubmissionFailed \/ mem r (hook_on c) = true)) /\
-     (is_rep c = true -> r = ResourceExhausted /\ restarts s = 0 /\
-                         (mem r (hook_on c) = true \/ stable = false))).
+     (is_rep c = true -> r = ResourceExhausted /\ restarts s = 0 /\ mem r (hook_on c) = true)).
 Proof.
   intros H.
-  assert (K : forall s' cd', comp_restart c s r h ok = (s', cd') ->
-     shut s' = shut s /\
-     (cd' <> Initiated -> resub s' = resub s /\ restarts s <= restarts s' <= restarts s + 1) /\
-     (cd' = Initiated -> shut s = false /\
+  assert (Fin : comp_restart c s r h ok = (s1, cd) -> r <> SubmissionFailed ->
+     shut s1 = shut s /\
+     (cd <> Initiated -> resub s1 = resub s /\ restarts s <= restarts s1 <= restarts s + 1) /\
+     (cd = Initiated ->
+        shut s = false /\
+        (r = SubmissionFailed -> is_rep c = false /\ resub s < max_resub /\ s1 = bump_resub s) /\
+        (r <> SubmissionFailed -> s1 = bump s) /\
         (is_rep c = false -> (eff_max c = -1 \/ restarts s + 1 <= eff_max c) /\
-            (r = SubmissionFailed -> s' = bump_resub s) /\
-            (r <> SubmissionFailed -> s' = bump s /\ mem r (hook_on c) = true)) /\
-        (is_rep c = true -> r = ResourceExhausted /\ restarts s = 0 /\ s' = bump s))).
-  { intros s' cd' Hc. unfold comp_restart in Hc. destruct (shut s) eqn:Hs.
-    - inversion Hc; subst. split; [assumption|]. split; [intros; lia|discriminate].
-    - destruct (is_rep c) eqn:Hr.
-      + apply repeating_restart_spec in Hc as [A [B C]]. split; [congruence|]. split.
-        * intros Hn. rewrite (B Hn). lia.
-        * intros Hi. split; [reflexivity|]. split; [discriminate|]. intros _. exact (C Hi).
-      + apply engine_restart_spec in Hc as [A [B C]]. split; [congruence|]. split; [exact B|].
-        intros Hi. split; [reflexivity|]. split; [intros _; exact (C Hi)|discriminate]. }
+                             (r = SubmissionFailed \/ mem r (hook_on c) = true)) /\
+        (is_rep c = true -> r = ResourceExhausted /\ restarts s = 0 /\ mem r (hook_on c) = true))).
+  { intros Hc Esf. destruct (comp_restart_spec _ _ _ _ _ _ _ Hc) as [A [B C]]. split; [exact A|]. split; [exact B|].
+    intros Hi. destruct (C Hi) as [C0 [C1 C2]]. split; [exact C0|]. split; [intros X; contradiction|].
+    split.
+    - intros _. destruct (is_rep c) eqn:Hr.
+      + destruct (C2 eq_refl) as [_ [_ [X _]]]. exact X.
+      + destruct (C1 eq_refl) as [_ [_ D3]]. exact (proj1 (D3 Esf)).
+    - split.
+      + intros Hr. destruct (C1 Hr) as [D1 [_ D3]]. split; [exact D1|right; exact (proj2 (D3 Esf))].
+      + intros Hr. destruct (C2 Hr) as [X [Y [_ Z]]]. auto. }
   unfold ctl_restart in H.
   destruct (reason_eqb r SubmissionFailed) eqn:Esf.
   - apply reason_eqb_eq in Esf. subst r.
     destruct (resub s <? max_resub) eqn:Hq.
-    + destruct (K _ _ H) as [A [B C]]. split; [exact A|]. split; [exact B|].
+    + destruct (comp_restart_spec _ _ _ _ _ _ _ H) as [A [B C]]. split; [exact A|]. split; [exact B|].
       intros Hi. destruct (C Hi) as [C0 [C1 C2]]. split; [exact C0|].
       destruct (is_rep c) eqn:Hr.
       * destruct (C2 eq_refl) as [X _]. discriminate X.
@@ -125,33 +160,12 @@ Proof.
         split; [intros X; contradiction|]. split; [intros _; split; [exact D1|left; reflexivity]|discriminate].
     + inversion H; subst. split; [reflexivity|]. split; [intros; lia|discriminate].
   - apply reason_eqb_neq in Esf.
-    assert (Fin : forall (side : mem r (hook_on c) = true \/ stable = false),
-       comp_restart c s r h ok = (s1, cd) ->
-       shut s1 = shut s /\
-       (cd <> Initiated -> resub s1 = resub s /\ restarts s <= restarts s1 <= restarts s + 1) /\
-       (cd = Initiated ->
-          shut s = false /\
-          (r = SubmissionFailed -> is_rep c = false /\ resub s < max_resub /\ s1 = bump_resub s) /\
-          (r <> SubmissionFailed -> s1 = bump s) /\
-          (is_rep c = false -> (eff_max c = -1 \/ restarts s + 1 <= eff_max c) /\
-                               (r = SubmissionFailed \/ mem r (hook_on c) = true)) /\
-          (is_rep c = true -> r = ResourceExhausted /\ restarts s = 0 /\
-                              (mem r (hook_on c) = true \/ stable = false)))).
-    { intros side Hc. destruct (K _ _ Hc) as [A [B C]]. split; [exact A|]. split; [exact B|].
-      intros Hi. destruct (C Hi) as [C0 [C1 C2]]. split; [exact C0|]. split; [intros X; contradiction|].
-      split.
-      - intros _. destruct (is_rep c) eqn:Hr.
-        + destruct (C2 eq_refl) as [_ [_ X]]. exact X.
-        + destruct (C1 eq_refl) as [_ [_ D3]]. exact (proj1 (D3 Esf)).
-      - split.
-        + intros Hr. destruct (C1 Hr) as [D1 [_ D3]]. split; [exact D1|right; exact (proj2 (D3 Esf))].
-        + intros Hr. destruct (C2 Hr) as [X [Y _]]. split; [exact X|split; [exact Y|exact side]]. }
     destruct (mem r (hook_on c)) eqn:Em.
-    + apply Fin; [left; reflexivity|exact H].
+    + apply Fin; assumption.
     + destruct (negb (reason_eqb r Killed || reason_eqb r Cancelled || reason_eqb r Success)) eqn:Ek.
       * destruct stable.
         -- inversion H; subst. split; [reflexivity|]. split; [intros; lia|discriminate].
-        -- apply Fin; [right; reflexivity|exact H].
+        -- apply Fin; assumption.
       * inversion H; subst. split; [reflexivity|]. split; [intros; lia|discriminate].
 Qed.
 
@@ -165,13 +179,23 @@ Proof.
   destruct (D Hr) as [_ [X|X]]; [left; exact X|right; apply mem_In; exact X].
 Qed.
 
+(* after the F12b fix the stability verdict no longer opens a way round restartHookOn *)
 Lemma repeating_only_once c s r h stable ok :
   is_rep c = true -> snd (ctl_restart c s r h stable ok) = Initiated ->
-  r = ResourceExhausted /\ restarts s = 0 /\ (In r (hook_on c) \/ stable = false).
+  r = ResourceExhausted /\ restarts s = 0 /\ In r (hook_on c).
 Proof.
   intros Hr Hi. destruct (ctl_restart c s r h stable ok) as [s1 cd] eqn:E. cbn in Hi.
   destruct (ctl_restart_spec _ _ _ _ _ _ _ _ E) as [_ [_ C]]. destruct (C Hi) as [_ [_ [_ [_ D]]]].
-  destruct (D Hr) as [X [Y [Z|Z]]]; (split; [exact X|split; [exact Y|]]); [left; apply mem_In; exact Z|right; exact Z].
+  destruct (D Hr) as [X [Y Z]]. split; [exact X|split; [exact Y|apply mem_In; exact Z]].
+Qed.
+
+(* both engine kinds: a restart is initiated only for a listed reason or a failed submission *)
+Lemma only_restartable_any c s r h stable ok :
+  snd (ctl_restart c s r h stable ok) = Initiated -> r = SubmissionFailed \/ In r (hook_on c).
+Proof.
+  intros Hi. destruct (is_rep c) eqn:Hr.
+  - right. exact (proj2 (proj2 (repeating_only_once c s r h stable ok Hr Hi))).
+  - exact (only_restartable c s r h stable ok Hr Hi).
 Qed.
 
 Lemma never_after_kill c s r h stable ok :
